@@ -51,6 +51,10 @@ Definition range (min max step : Z) : option (list Z) :=
   let fuel := Z.to_nat (Z.abs (max - min)) in
   if (min >? max) && (step >? 0) then range_down fuel min max step
   else range_up fuel min max step.
+(** the other two ways of calling it: `Range(max)` is `return Range(0, max, 1);` and `Range(min, max)` uses the
+    default argument `stepsize = 1` of the declaration in Utilities.hpp *)
+Definition range1 (max : Z) : option (list Z) := range 0 max 1.
+Definition range2 (min max : Z) : option (list Z) := range min max 1.
 
 (** ** List templates (instantiated at int in the harness; any type with decidable equality here) *)
 Section Lists.
@@ -93,7 +97,13 @@ Definition transpose_lists (d : A) (lists : list (list A)) : res (list (list A))
       then Ok (map (column d lists) (seq 0 m))
       else Exit
   end.
+(** the two-list overload: `return Transpose_Lists(std::vector<std::vector<T>> {v1, v2});` *)
+Definition transpose_lists2 (d : A) (v1 v2 : list A) : res (list (list A)) := transpose_lists d [v1; v2].
 End Lists.
+(** the overload of Lists_Equal for lists of lists: sizes, then `Lists_Equal(v1[i], v2[i])` row by row,
+    i.e. the same template with the row comparison as the element comparison *)
+Definition lists_equal2 {A : Type} (eqb : A -> A -> bool) (v1 v2 : list (list A)) : bool :=
+  lists_equal (lists_equal eqb) v1 v2.
 
 (** ** Floating-point helpers *)
 Section Num.
@@ -161,6 +171,13 @@ Definition median (l : list T) : T :=
   let n := length l in
   if Nat.even n then ((nth0 Ops s (n / 2 - 1) + nth0 Ops s (n / 2)) / nofZ Ops 2)%num
   else nth0 Ops s (n / 2).
+(** Median takes its argument by non-const reference and std::nth_element reorders it: the caller's vector is a
+    permutation of what it was (which one is unspecified; [sort_list] is the canonical representative).  State of the
+    vector after a call, and a second call on the same object: *)
+Definition median_state (l : list T) : T * list T := (median l, sort_list l).
+Definition median_twice (l : list T) : T * T * list T :=
+  let '(m1, l1) := median_state l in
+  let '(m2, l2) := median_state l1 in (m1, m2, l2).
 
 (* Weighted_Average on (value, weight) pairs: returns (average, standard error) *)
 Definition weighted_average (d : list (T * T)) : T * T :=
@@ -175,4 +192,13 @@ Definition weighted_average (d : list (T * T)) : T * T :=
   let sum3 := fold_left (fun acc p => (acc + sq (snd p - wavg))%num) d (n0 Ops) in
   let se := (N / (N - n1 Ops) / wsum / wsum * (sum1 - nofZ Ops 2 * avg * sum2 + sq avg * sum3))%num in
   (avg, nsqrt Ops se).
+(** `DataPoint(double v = 0.0, double w = 1.0)`: data points built from a value only carry the weight 1 *)
+Definition weighted_average_default (l : list T) : T * T := weighted_average (map (fun v => (v, n1 Ops)) l).
+
+(** data transformations of the laws (the harness applies the same floating-point operations to the data) *)
+Definition scale_data (p : T) (l : list T) : list T := map (fun x => (p * x)%num) l.
+Definition shift_data (t : T) (l : list T) : list T := map (fun x => (x + t)%num) l.
+Definition rotate_data {B} (k : nat) (l : list B) : list B := skipn k l ++ firstn k l.
+Definition scale_values (p : T) (d : list (T * T)) : list (T * T) := map (fun q => ((p * fst q)%num, snd q)) d.
+Definition scale_weights (p : T) (d : list (T * T)) : list (T * T) := map (fun q => (fst q, (p * snd q)%num)) d.
 End Num.
